@@ -7,6 +7,7 @@ mod ctl;
 mod ops;
 mod parse;
 mod regs;
+mod sweep;
 #[cfg(feature = "serde")]
 mod tokfmt;
 mod types;
